@@ -100,25 +100,33 @@ func runC17(w *World, r *Report, tier string) {
 		}
 		// the nil path returns the zero result; a nil queue is empty
 		if n == "Empty" {
-			nilEdges := edgesAsserting(fn, func(c ssa.Value, truth bool) bool {
-				x, eq, ok := nilCompare(c)
-				return ok && isRecv(fn, x) && eq == truth
-			})
-			okTrue := len(nilEdges) > 0
-			for e := range nilEdges {
-				walkPaths(Loc{e.From.Succs[e.Succ], 0}, nil, nil, 100, func(path []ssa.Instruction, end pathEnd) {
-					if rt, ok := path[len(path)-1].(*ssa.Return); ok {
-						if b, isC := boolConst(rvI(rres(path, rt)[0], len(path)-1)); !isC || !b {
-							okTrue = false
-						}
-					}
+			okTrue, nNil := true, 0
+			walkPaths(entryLoc(fn), nil, nil, 500, func(path []ssa.Instruction, end pathEnd) {
+				rt, ok := path[len(path)-1].(*ssa.Return)
+				if !ok {
+					return
+				}
+				isNilPath := pathAsserts(path, func(c ssa.Value, truth bool) bool {
+					x, eq, ok := nilCompare(c)
+					return ok && isRecv(fn, x) && eq == truth
 				})
+				if !isNilPath {
+					return
+				}
+				nNil++
+				if b, isC := boolConst(valueOnPath(rvI(rres(path, rt)[0], len(path)-1), path)); !isC || !b {
+					okTrue = false
+				}
+			})
+			if nNil == 0 {
+				okTrue = false
 			}
 			if !okTrue {
 				bad = "Empty does not report a nil queue as empty"
 			}
 		}
-		r.Check(bad == "" && len(derefs) > 0, "R6", "stanza.(*UnAckQueue)."+n+"#nil-safe", w.pos(fn.Pos()), bad, fmt.Sprintf("%d dereference(s), all behind a non-nil / non-empty edge", len(derefs)))
+		delegates := len(w.callsInH(fn, "stanza.UnAckQueue.PeekN", "stanza.UnAckQueue.Peek", "stanza.UnAckQueue.Empty", "stanza.UnAckQueue.Pop", "stanza.UnAckQueue.PopN")) > 0
+		r.Check(bad == "" && (len(derefs) > 0 || delegates), "R6", "stanza.(*UnAckQueue)."+n+"#nil-safe", w.pos(fn.Pos()), bad, fmt.Sprintf("%d dereference(s), all behind a non-nil / non-empty edge", len(derefs)))
 	}
 
 	// ---- R1
@@ -342,11 +350,21 @@ func runC17(w *World, r *Report, tier string) {
 			if got != want {
 				ok, detail = false, "PopN stores "+got+", expected "+want
 			}
-			allInstrs(fn, func(in ssa.Instruction) {
-				if rt, isRet := in.(*ssa.Return); isRet && !isNilConst(rt.Results[0]) {
-					if w.nf(rt.Results[0], 0) != peek {
-						ok, detail = false, "PopN returns something other than PeekN(n)"
+			walkPaths(entryLoc(fn), nil, nil, 500, func(path []ssa.Instruction, end pathEnd) {
+				rt, isRet := path[len(path)-1].(*ssa.Return)
+				if !isRet {
+					return
+				}
+				res := rres(path, rt)[0]
+				stored := countOn(path, func(in ssa.Instruction) bool { return in == ssa.Instruction(stores[0]) }) > 0
+				if isNilConst(res) {
+					if stored {
+						ok, detail = false, "PopN removes elements and returns nil"
 					}
+					return
+				}
+				if w.nfOn(res, path) != peek || !stored {
+					ok, detail = false, "PopN returns something other than PeekN(n), or returns it without removing it"
 				}
 			})
 		}
@@ -490,15 +508,28 @@ func runC17(w *World, r *Report, tier string) {
 				return
 			}
 			nNon++
-			if got := w.nfOn(rres(path, rt)[0], path); got != fmt.Sprintf("index(%s,0)", U(fn)) {
-				ok, detail = false, "Peek returns "+got+", not the head Uslice[0]"
-			}
+			got := w.nfOn(rres(path, rt)[0], path)
 			viaNonEmpty := false
 			pathEdges(path, func(b *ssa.BasicBlock, succ int) {
 				if cut[Edge{b, succ}] {
 					viaNonEmpty = true
 				}
 			})
+			// the head taken from PeekN(1), which R5 establishes to be the first min(1, len) elements
+			peek1 := fmt.Sprintf("stanza.UnAckQueue.PeekN(param:%s,1)", fn.Params[0].Name())
+			if got == "index("+peek1+",0)" {
+				if pathAsserts(path, func(c ssa.Value, truth bool) bool {
+					cn := w.condNF(c, truth)
+					return cn == "eq(0,builtin.len("+peek1+"))=false" || cn == "le(builtin.len("+peek1+"),0)=false"
+				}) {
+					return
+				}
+				ok, detail = false, "Peek indexes PeekN(1) without having checked that it is non-empty"
+				return
+			}
+			if got != fmt.Sprintf("index(%s,0)", U(fn)) {
+				ok, detail = false, "Peek returns "+got+", not the head Uslice[0]"
+			}
 			if !viaNonEmpty {
 				ok, detail = false, "Peek indexes the slice without having checked that it is non-empty"
 			}
@@ -513,7 +544,7 @@ func runC17(w *World, r *Report, tier string) {
 			if !isRet {
 				return
 			}
-			res := rvI(rres(path, rt)[0], len(path)-1)
+			res := valueOnPath(rvI(rres(path, rt)[0], len(path)-1), path)
 			if _, isC := boolConst(res); isC {
 				return
 			}
